@@ -63,7 +63,7 @@ def parse_case(case):
     return shape, int(limit), int(budget), thread
 
 
-def evaluate(r, profile, lines, model, stats):
+def evaluate(r, profile, lines, model, stats, max_recursion):
     for i, line in enumerate(lines):
         f = line.split("\t")
         if len(f) != 8:
@@ -86,7 +86,7 @@ def evaluate(r, profile, lines, model, stats):
             for e in shape[2:].split(","):
                 r.hist["edge"][fam + ":" + e[0]] += 1
             r.hist["cycle_len"][len(shape[2:].split(","))] += 1
-        bound = max(limit, 1)
+        bound = max(min(limit, max_recursion), 1)   # set_recursion_limit clamps to MAX_RECURSION
         crashed = status.startswith(("signal", "exit", "panic"))
         # ---------------------------------------------------------------- oracle (the property)
         if crashed:
@@ -143,6 +143,7 @@ def run(r):
         "the `stacker` feature is off (with it the limit is not clamped and the stack grows on demand)",
     ]
     st = r.regen_tables(TABLES)
+    max_recursion = st["items"].get("MAX_RECURSION_ENV") or 500
     r.lean_prove("MJ.Props.C11", "MJ/Audit/C11.lean", extra_targets=["drive_c11"])
     exes = builds(r)
     if any(v is None for v in exes.values()):
@@ -166,7 +167,7 @@ def run(r):
         elif text != cases_text:
             r.broken.append(f"case enumeration differs between build profiles ({profile})")
             continue
-        evaluate(r, profile, lines, model, stats)
+        evaluate(r, profile, lines, model, stats, max_recursion)
     # ---------------------------------------------------------------- stack margin (measured)
     known_sites = {k.get("site") for k in r.known}
     report = {}
